@@ -49,6 +49,21 @@ type usesUnresolved struct {
 type usesResolved struct {
 	grouping *Grouping
 	defs     []Definition
+	// where the grouping is being expanded into
+	into Meta
+}
+
+// the container, list, ... that holds the data of p: choices and cases are not nodes of the data tree
+func dataParent(p Meta) Meta {
+	for p != nil {
+		switch p.(type) {
+		case *Choice, *ChoiceCase:
+			p = p.Parent()
+			continue
+		}
+		break
+	}
+	return p
 }
 
 type resolver struct {
@@ -700,7 +715,7 @@ func (r *resolver) expandUses(parent HasDataDefinitions, u *Uses) ([]Definition,
 		fc.Debug.Printf("USE %s:%s", parent.Ident(), u.Ident())
 	}
 
-	resolved = &usesResolved{grouping: g}
+	resolved = &usesResolved{grouping: g, into: parent}
 	r.inProgressUses[g] = resolved
 
 	// resolve all children
@@ -771,6 +786,12 @@ func (r *resolver) expandUses(parent HasDataDefinitions, u *Uses) ([]Definition,
 func (r *resolver) delayRecursiveUses(parent HasDataDefinitions, u *Uses, resolved *usesResolved) ([]Definition, error) {
 	if r.trace {
 		fc.Debug.Printf("QUE %s:%s", parent.Ident(), u.Ident())
+	}
+
+	if dataParent(parent) == dataParent(resolved.into) {
+		// the copy would hold its own nodes again, in the very same container: only a
+		// recursion that passes through a container or list describes a data tree
+		return nil, fmt.Errorf("%s - grouping %s uses itself without a container or list in between", SchemaPath(u), u.ident)
 	}
 
 	// detected a recursive uses so resolve this uses later once the root
